@@ -3,6 +3,7 @@ import DaskModel.Lemmas.TakePlan
 import DaskModel.Lemmas.SliceInt
 import DaskModel.Lemmas.SliceSize2
 import DaskModel.Lemmas.SliceNDLemmas
+import DaskModel.Lemmas.NormIndexLemmas
 /-!
 # C20 — array indexing equals NumPy indexing (theorems)
 
@@ -271,5 +272,71 @@ open Dask.SliceND in
 example : axisPairs [2, 1, 3] (.sl ⟨some 4, none, some (-2)⟩) =
     [(some 2, (0, .sl (PSlice.ofInts (-2) (-3) (-2)))), (some 1, (1, .sl (PSlice.ofInts (-1) (-2) (-2)))),
      (some 0, (2, .sl (PSlice.ofInts (-2) (-4) (-2))))] := by decide
+
+/-! ## `normalize_index`: Ellipsis, padding, np.newaxis -/
+
+open Dask.NormIndex in
+/-- **`normalize_index`** (entries: slices, integers, `None`, `Ellipsis`, integer lists). Whenever it returns, the
+    result has exactly one non-`None` entry per axis of the array (the first `Ellipsis` was replaced by the right
+    number of full slices, missing trailing axes were padded), contains no `Ellipsis`, and keeps every `np.newaxis`
+    (same number; `normEntries_kinds`: at the same places relative to the entries it had). -/
+theorem normalize_index_spec (shape : List Nat) (index out : List Entry) (h : normalizeIndex shape index = some out) :
+    (out.filter (fun e => !isNewaxis e)).length = shape.length ∧ (∀ e ∈ out, isEllipsis e = false) ∧
+    (out.filter isNewaxis).length = (index.filter isNewaxis).length := by
+  unfold normalizeIndex at h
+  simp only at h
+  by_cases hc : ((padded shape.length index).filter (fun e => !isNewaxis e)).length > shape.length
+  · rw [if_pos hc] at h; cases h
+  · rw [if_neg hc] at h
+    obtain ⟨hk, hell⟩ := normEntries_kinds _ _ _ h
+    obtain ⟨hn, hcn⟩ := filter_length_of_map_eq isNewaxis _ _ hk
+    refine ⟨?_, hell, ?_⟩
+    · rw [hcn]
+      have hpad : ((padded shape.length index).filter (fun e => !isNewaxis e)).length ≥ shape.length := by
+        unfold padded
+        simp only [List.filter_append, List.length_append]
+        have : ((List.replicate (shape.length - ((replaceEllipsis shape.length index).filter (fun e => !isNewaxis e)).length)
+            (Entry.sl Dask.Slice1D.colon)).filter (fun e => !isNewaxis e)).length
+            = shape.length - ((replaceEllipsis shape.length index).filter (fun e => !isNewaxis e)).length := by
+          rw [List.filter_eq_self.mpr]
+          · simp
+          · intro a ha; rw [List.mem_replicate] at ha; rw [ha.2]; rfl
+        rw [this]; omega
+      omega
+    · rw [hn]
+      unfold padded
+      simp only [List.filter_append, List.length_append]
+      rw [replaceEllipsis_newaxes]
+      have : (List.replicate (shape.length - ((replaceEllipsis shape.length index).filter (fun e => !isNewaxis e)).length)
+          (Entry.sl Dask.Slice1D.colon)).filter isNewaxis = [] := by
+        rw [List.filter_eq_nil_iff]
+        intro a ha; rw [List.mem_replicate] at ha; rw [ha.2]; simp [isNewaxis]
+      rw [this]; simp
+
+open Dask.NormIndex in
+/-- **Boolean masks** (`sanitize_index` turns a NumPy boolean index into `np.nonzero(mask)[0]`): indexing with the
+    listed positions selects exactly the elements whose mask entry is `True`, in order — NumPy's `x[mask]`. -/
+theorem mask_nonzero_den {α : Type} (m : List Bool) (x : List α) (h : x.length = m.length) :
+    (nonzero m).filterMap (fun i => x[i.toNat]?) = (x.zip m).filterMap (fun p => if p.2 then some p.1 else none) := by
+  have := nonzeroFrom_den m x [] h
+  simpa [nonzero] using this
+
+open Dask.NormIndex in
+/-- …and those positions are in bounds for an axis of the mask's length (so `check_index` accepts them and
+    `posify_index` leaves them unchanged) -/
+theorem mask_nonzero_in_bounds (m : List Bool) : ∀ i ∈ nonzero m, 0 ≤ i ∧ i < (m.length : Int) := by
+  intro i hi
+  have := nonzeroFrom_bounds m 0 i hi
+  simpa using this
+
+open Dask.NormIndex in
+example : nonzero [true, false, true, true] = [0, 2, 3] := by decide
+
+open Dask.NormIndex in
+/-- non-vacuity: `x[None, ..., -1]` on shape (4, 3, 5) -/
+example : normalizeIndex [4, 3, 5] [.newaxis, .ellipsis, .int (-1)]
+    = some [.newaxis, .sl Dask.Slice1D.colon, .sl Dask.Slice1D.colon, .int 4] := by decide
+open Dask.NormIndex in
+example : normalizeIndex [4, 3] [.int 0, .int 0, .int 0] = none := by decide
 
 end Dask.C20
